@@ -147,6 +147,23 @@ def _bound_context(w) -> str:
     raise AnchorMissing(f"with statement at line {w.lineno} opens no request context")
 
 
+def propagation_guard_rule(chk, rid, ctx):
+    """RequestContextManager.__exit__ hands its start / end to the enclosing context whenever there is one — also when the block ends with an exception (a failed sub-request of a
+    composite still belongs to the logical request). The only guard fact allowed is "the token has an old value". Shared with C04 (service time under error outcomes)."""
+    from sa import pat
+    RCM = ctx.cls("RequestContextManager")
+    ex = ctx.methods(RCM).get("__exit__")
+    if ex is None:
+        raise AnchorMissing("RequestContextManager.__exit__")
+    props = [c for c in source.calls_in(ex) if isinstance(c.func, ast.Attribute) and is_self_attr(c.func.value, "ctx_holder") and c.func.attr not in ("restore_context",)]
+    if not props:
+        raise AnchorMissing("propagation calls in RequestContextManager.__exit__")
+    for p in props:
+        fs = pat.fact_nodes(p)
+        ok = len(fs) == 1 and pat.is_(fs[0], "self.token.old_value != contextvars.Token.MISSING", "self.token.old_value is not contextvars.Token.MISSING", "contextvars.Token.MISSING is not self.token.old_value")
+        chk.ob(rid, "propagation only when a parent context exists", ok, p, f"guards {[(u(t), pol) for t, pol in guards(p)]}")
+
+
 def run(chk):
     repo = chk.repo
     ctx, run_, drv = repo.module(_C), repo.module(_R), repo.module(_D)
@@ -252,11 +269,7 @@ def run(chk):
     ok = rc is not None and any(isinstance(n, ast.Call) and isinstance(n.func, ast.Attribute) and n.func.attr == "reset" and last_attr(n.func.value) == cv and len(n.args) == 1
                                 and source.inline(n.args[0], local_defs(rc)) == params_of(rc)[-1] for n in walk_body(rc))
     chk.ob("O18.2", "restore_context resets the ContextVar with the token", ok, rc if rc is not None else RCH, "")
-    for p in props:
-        # the only fact guarding the propagation is "the token has an old value" (any orientation / polarity / arm position of the test)
-        fs = pat.fact_nodes(p)
-        ok = len(fs) == 1 and pat.is_(fs[0], "self.token.old_value != contextvars.Token.MISSING", "self.token.old_value is not contextvars.Token.MISSING", "contextvars.Token.MISSING is not self.token.old_value")
-        chk.ob("O18.2", "propagation only when a parent context exists", ok, p, f"guards {[(u(t), pol) for t, pol in guards(p)]}")
+    propagation_guard_rule(chk, "O18.2", ctx)
     # __exit__ does not swallow exceptions
     rets = [n for n in walk_body(ex) if isinstance(n, ast.Return)]
     ok = all(r.value is None or source.is_const(source.inline_node(r.value, exdefs), False) for r in rets)
@@ -290,6 +303,19 @@ def run(chk):
         gg = cfg_of(call)
         ok = all(gg.dominated_by_nodes(gg.node_of(r), [gg.node_of(runs[0])]) for r in reads) if runs else False
         chk.ob("O18.3", "executor: start/end read after the runner returned", ok, reads[0] if reads else L, "")
+        # what the sample records as the start of the logical request is the context's (earliest) request start, not another clock reading of the same type
+        adds = [n for n in ast.walk(L) if isinstance(n, ast.Call) and u(n.func) == "self.sampler.add"]
+        sadd = drv.methods(drv.cls("Sampler")).get("add")
+        ok = False
+        detail = ""
+        if adds and sadd is not None:
+            ldefs = {n.targets[0].id: n.value for n in ast.walk(L) if isinstance(n, ast.Assign) and len(n.targets) == 1 and isinstance(n.targets[0], ast.Name)}
+            b_ = source.bind_args(adds[0], sadd)
+            rsv = b_.get("request_start")
+            got = source.inline(rsv, ldefs, no_calls=True) if rsv is not None else None
+            ok = got == f"{cvn}.request_start"
+            detail = f"request_start := {got}"
+        chk.ob("O18.3", "executor: the sample's request_start is the context's request_start", ok, adds[0] if adds else L, detail, key=f"{_D}:AsyncExecutor.__call__:sample-request-start")
     RT = run_.cls("RequestTiming")
     rt = run_.methods(RT).get("__call__")
     if rt is None:
